@@ -57,7 +57,7 @@ Fixpoint lex_go (m : lmode) (acc : str) (s : str) : list tok :=
       | MValueQ => [TValue (rev acc); TEOF]
       end
   | b :: s' =>
-      let text_b :=
+      let text_b := fun _ : unit =>     (* a thunk: evaluated only in the branches that use it *)
         if is_ws b then lex_go MText [] s'
         else match single_tok b with
              | Some t => t :: lex_go MText [] s'
@@ -68,11 +68,11 @@ Fixpoint lex_go (m : lmode) (acc : str) (s : str) : list tok :=
                  else [TError]
              end in
       match m with
-      | MText => text_b
-      | MField => if is_ident b then lex_go MField (b :: acc) s' else TField (rev acc) :: text_b
-      | MPh => if is_digit b then lex_go MPh (b :: acc) s' else TPh (rev acc) :: text_b
+      | MText => text_b tt
+      | MField => if is_ident b then lex_go MField (b :: acc) s' else TField (rev acc) :: text_b tt
+      | MPh => if is_digit b then lex_go MPh (b :: acc) s' else TPh (rev acc) :: text_b tt
       | MValue => if b =? quote then lex_go MValueQ (b :: acc) s' else lex_go MValue (b :: acc) s'
-      | MValueQ => if b =? quote then lex_go MValue (b :: acc) s' else TValue (rev acc) :: text_b
+      | MValueQ => if b =? quote then lex_go MValue (b :: acc) s' else TValue (rev acc) :: text_b tt
       end
   end.
 
